@@ -1,6 +1,10 @@
 package adobergb
 
-import "image/color"
+import (
+	"image/color"
+
+	"github.com/mandykoh/prism/linear"
+)
 
 // VerifHarness_C14_Wiring (bit-precise floats, tables as uninterpreted functions).
 func VerifHarness_C14_Wiring() {
@@ -25,6 +29,13 @@ func VerifHarness_C14_Wiring() {
 	verifAssert(lin.A == a16, "LineariseColor changes alpha")
 	enc := EncodeColor(color.NRGBA64{R: r16, G: g16, B: b16, A: a16})
 	verifAssert(enc.A == a16, "EncodeColor changes alpha")
+	// encode side: every colour type writes alpha as the quantiser's value (clip and round
+	// for every float32 alpha incl. NaN and out-of-range follow from C02's quantiser result)
+	fa, fr := verifF32(), verifF32()
+	ec := ColorFromLinear(fr, fr, fr)
+	verifAssert(ec.ToNRGBA(fa).A == linear.NormalisedTo8Bit(fa), "ToNRGBA: alpha is not the 8-bit quantiser of alpha")
+	verifAssert(ec.ToRGBA(fa).A == linear.NormalisedTo8Bit(fa), "ToRGBA: alpha is not the 8-bit quantiser of alpha")
+	verifAssert(ec.ToRGBA64(fa).A == linear.NormalisedTo16Bit(fa), "ToRGBA64: alpha is not the 16-bit quantiser of alpha")
 	// opaque colours: the three constructors agree (the generic one reads T16[257 v])
 	on, _ := ColorFromNRGBA(color.NRGBA{R: r8, G: g8, B: b8, A: 255})
 	op, _ := ColorFromRGBA(color.RGBA{R: r8, G: g8, B: b8, A: 255})
